@@ -39,6 +39,8 @@ fn gen() -> GenCfg {
         w_settle: 2,
         qos_weights: [1, 5, 3],
         p_manual_ack: 70,
+        // a new QoS>0 subscription with retained messages AND a backlog shares one window
+        p_retain: 15,
         p_manual_ready: 40,
         max_burst: 400,
         topics: ["a", "a/b", "a/c", "b"].iter().map(|s| s.to_string()).collect(),
@@ -54,12 +56,13 @@ pub fn main_campaign() -> SimCampaign {
         flags: Flags {
             window: true,
             delivery: true,
+            retained: true,
             acks: true,
             avoid: avoid_all(),
             ..Flags::default()
         },
-        quick: 2500,
-        thorough: 60_000,
+        quick: 10000,
+        thorough: 200_000,
         nontrivial,
         probes: vec![],
         shape: None,
@@ -85,8 +88,8 @@ pub fn bad_ack_campaign() -> SimCampaign {
             avoid: avoid_all(),
             ..Flags::default()
         },
-        quick: 1500,
-        thorough: 30_000,
+        quick: 5000,
+        thorough: 100_000,
         nontrivial: nontrivial_bad,
         probes: vec![],
         shape: Some(|mut h: Hist| {
